@@ -158,12 +158,51 @@ impl Elem for RotoString {
     const ROTO: &'static str = "String";
     const TRACKED: bool = false;
     fn make(v: u64) -> RotoString {
-        format!("s{v}").into()
+        elem_string(v).into()
     }
     fn val(&self) -> u64 {
         let s: &str = self.as_ref();
-        s[1..].parse().expect("string element")
+        if let Some(k) = STR_SPECIAL.iter().position(|x| *x == s) {
+            return k as u64;
+        }
+        match s.strip_prefix('s').and_then(|d| d.parse::<u64>().ok()) {
+            Some(v) if v >= STR_SPECIAL.len() as u64 && elem_string(v) == s => v,
+            _ => panic!("a string element that no value stands for: {s:?}"),
+        }
     }
+}
+
+/// The strings the small element values of a `List[String]` stand for (the Lean
+/// model has the same table, `RotoV.ListM.elemStr`; `c15 worker strings` compares
+/// the two): the empty string, a proper prefix of another element, a multi-byte
+/// character, a separator character, a string differing in case only, one with a
+/// trailing blank, multi-byte followed by ASCII. Every other value `v` is `"s<v>"`.
+pub const STR_SPECIAL: [&str; 8] = ["", "s1", "s", "é", ",", "S1", "s1 ", "→x"];
+
+pub fn elem_string(v: u64) -> String {
+    match STR_SPECIAL.get(v as usize) {
+        Some(s) => s.to_string(),
+        None => format!("s{v}"),
+    }
+}
+
+/// separators of `join`, by index: one byte, empty, two bytes, one multi-byte
+/// character, equal to an element, multi-byte + ASCII
+pub const SEPS: [&str; 6] = [",", "", ", ", "→", "s1", "é,"];
+
+/// a string result as the protocol shows it: `t<byte,byte,…>`
+pub fn show_str(s: &str) -> String {
+    format!("t{}", s.bytes().map(|b| b.to_string()).collect::<Vec<_>>().join(","))
+}
+
+/// `t<byte,…>` back into something readable for a report
+fn read_str(out: &str) -> Option<String> {
+    let b = out.strip_prefix('t')?;
+    if b.is_empty() {
+        return Some(String::new());
+    }
+    let bytes: Option<Vec<u8>> = b.split(',').map(|x| x.parse().ok()).collect();
+    Some(String::from_utf8_lossy(&bytes?).into_owned())
 }
 impl Elem for Val<Tk0> {
     const NAME: &'static str = "Tk0";
@@ -237,7 +276,8 @@ pub enum Op {
     Eq(usize, usize),
     ToVec(usize),
     Iter(usize),
-    Join(usize),
+    /// script `l.join(SEPS[k])` on a `List[String]`
+    Join(usize, usize),
 }
 
 /// who issues the operation
@@ -270,7 +310,7 @@ impl Op {
             Op::Eq(..) => "eq",
             Op::ToVec(_) => "to_vec",
             Op::Iter(_) => "iter",
-            Op::Join(_) => "join",
+            Op::Join(..) => "join",
         }
     }
     /// what the issuer really runs: a script collects with a `for` loop
@@ -302,12 +342,16 @@ impl Op {
             },
             Op::ToVec(h) => format!("v:{h}"),
             Op::Iter(h) => format!("it:{h}"),
-            Op::Join(h) => format!("j:{h}"),
+            Op::Join(h, k) => format!(
+                "j:{h}:{}",
+                SEPS[*k].bytes().map(|b| b.to_string()).collect::<Vec<_>>().join(",")
+            ),
         }
     }
     fn text(&self, via: Via) -> String {
         let base = match self {
             Op::Eq(a, b) => format!("=:{a}:{b}"),
+            Op::Join(h, k) => format!("j:{h}:{k}"),
             o => o.lean(Via::Rust),
         };
         match via {
@@ -348,7 +392,8 @@ impl Op {
             ("=", 3) => Op::Eq(h(1)?, h(2)?),
             ("v", 2) => Op::ToVec(h(1)?),
             ("it", 2) => Op::Iter(h(1)?),
-            ("j", 2) => Op::Join(h(1)?),
+            ("j", 2) => Op::Join(h(1)?, 0),
+            ("j", 3) => Op::Join(h(1)?, h(2).filter(|k| *k < SEPS.len())?),
             _ => return None,
         };
         Some((op, via))
@@ -371,7 +416,7 @@ impl Op {
             | Op::Index(h, _)
             | Op::ToVec(h)
             | Op::Iter(h)
-            | Op::Join(h) => (vec![h], None),
+            | Op::Join(h, _) => (vec![h], None),
         }
     }
 }
@@ -417,7 +462,7 @@ impl Case {
                 }
                 bound[d] = true;
             }
-            if matches!(op, Op::Join(_)) && (self.etype != "String" || *via != Via::Script) {
+            if matches!(op, Op::Join(..)) && (self.etype != "String" || *via != Via::Script) {
                 return false;
             }
         }
@@ -531,7 +576,12 @@ impl Reference {
                 show_opt(self.get(*h).borrow().iter().position(|x| x == v).map(|i| i as u64))
             }
             Op::Eq(a, b) => format!("b{}", (*self.get(*a).borrow() == *self.get(*b).borrow()) as u8),
-            Op::ToVec(h) | Op::Iter(h) | Op::Join(h) => format!("v{}", nats(&self.get(*h).borrow())),
+            Op::ToVec(h) | Op::Iter(h) => format!("v{}", nats(&self.get(*h).borrow())),
+            // the property: `Vec<String>::join` of the same strings
+            Op::Join(h, k) => {
+                let v: Vec<String> = self.get(*h).borrow().iter().map(|x| elem_string(*x)).collect();
+                show_str(&v.join(SEPS[*k]))
+            }
         }
     }
     fn observe(&self, out: String) -> Rec {
@@ -675,7 +725,7 @@ where
                 }
                 format!("v{}", nats(&v))
             }
-            Op::Join(_) => "unsupported".into(),
+            Op::Join(..) => "unsupported".into(),
         }
     }
     fn observe(&self, out: String) -> Rec {
@@ -858,6 +908,12 @@ where
 /// the property: results and contents as a shared vector gives them, tokens balanced
 fn disagree(got: &Rec, want: &Rec, op: &Op) -> Option<String> {
     if !matches!(op, Op::Capacity(_)) && got.out != want.out {
+        if let (Op::Join(_, k), Some(g), Some(w)) = (op, read_str(&got.out), read_str(&want.out)) {
+            return Some(format!(
+                "result: join({:?}) gives {g:?} but the same strings in a vector join to {w:?}",
+                SEPS[*k]
+            ));
+        }
         return Some(format!("result: {} but a shared vector gives {}", got.out, want.out));
     }
     for (h, (g, w)) in got.slots.iter().zip(&want.slots).enumerate() {
@@ -938,6 +994,26 @@ fn alphabet(ns: usize) -> Vec<Op> {
     a
 }
 
+/// the alphabet for lists of strings: value 2 becomes 0 — the empty string —
+/// so that every enumerated history has empty elements in it, and `join` is a letter
+fn string_alphabet(ns: usize) -> Vec<Op> {
+    let z = |v: u64| if v == 2 { 0 } else { v };
+    let mut a: Vec<Op> = alphabet(ns)
+        .into_iter()
+        .map(|o| match o {
+            Op::FromVec(d, xs) => Op::FromVec(d, xs.iter().map(|v| z(*v)).collect()),
+            Op::Push(h, v) => Op::Push(h, z(v)),
+            Op::Contains(h, v) => Op::Contains(h, z(v)),
+            Op::Index(h, v) => Op::Index(h, z(v)),
+            o => o,
+        })
+        .collect();
+    for d in 0..ns {
+        a.push(Op::Join(d, 0));
+    }
+    a
+}
+
 fn zero_values(op: Op) -> Op {
     match op {
         Op::FromVec(d, xs) => Op::FromVec(d, xs.iter().map(|_| 0).collect()),
@@ -992,6 +1068,8 @@ fn random_case(etype: &'static str, seed: u64, idx: u64, via_mode: u64) -> Case 
                 0 => len,
                 1 => len + 1 + p.below(3),
                 2 => u64::MAX - p.below(2),
+                // in range only after a truncating cast (u8 / u16 / u32 / i64) in an adapter
+                3 if p.chance(1, 2) => (1u64 << *p.pick(&[8u32, 16, 32, 63])) + p.below(len.max(1)),
                 _ => p.below(len.max(1)),
             }
         };
@@ -1037,11 +1115,17 @@ fn random_case(etype: &'static str, seed: u64, idx: u64, via_mode: u64) -> Case 
             }
             _ => {
                 if etype == "String" && via == Via::Script {
-                    Op::Join(h)
+                    Op::Join(h, p.below(SEPS.len() as u64) as usize)
                 } else {
                     Op::Len(h)
                 }
             }
+        };
+        // a list of strings is joined more often than the 2 % above (script issuer only)
+        let op = if etype == "String" && via == Via::Script && matches!(op, Op::Len(_) | Op::Capacity(_) | Op::IsEmpty(_)) && p.chance(1, 2) {
+            Op::Join(h, p.below(SEPS.len() as u64) as usize)
+        } else {
+            op
         };
         let op = if etype == "Tk0" && via == Via::Script && known_tk0_for(&op) { Op::Len(h) } else { op };
         ops.push((op, via));
@@ -1089,9 +1173,67 @@ fn boundary_cases(etype: &'static str) -> Vec<Case> {
         if !z {
             texts.push(format!("f:0:{},{},{}@s it:0@s v:0@s it:0 d:0@s", v(1), v(2), v(3)));
         } else {
-            // the known finding's witness
+            // zero-sized tracked elements copied out by a script: `for` and `get` over lists
+            // built by Rust and by the script (literal, `List.new` + push), then concatenated
             texts.push("f:0:0,0 it:0@s".into());
+            texts.push("f:0:0,0@s it:0@s v:0@s g:0:0@s g:0:1@s g:0:2@s it:0 d:0@s".into());
+            texts.push("n:0@s p:0:0@s p:0:0@s p:0:0 it:0@s c:1:0@s +:2:0:1@s it:2@s g:2:5@s d:0 it:1@s d:1@s it:2@s d:2".into());
+            texts.push("f:0:0,0,0@s +:1:0:0 it:1@s +:2:1:0@s it:2@s v:2 g:2:8@s".into());
         }
+    }
+    // indices that are in range only after a truncating cast (the script-side
+    // adapters take u64 and call the usize API; `ffi::list_get` likewise)
+    for at in ["", "@s"] {
+        texts.push(format!(
+            "f:0:{},{},{}{at} g:0:256{at} g:0:65537{at} g:0:4294967296{at} g:0:4294967298{at} g:0:9223372036854775808{at} g:0:9223372036854775809{at} s:0:4294967296:1{at} s:0:2:4294967297{at} s:0:256:1{at} s:0:1:65538{at} s:0:9223372036854775808:2{at} s:0:18446744073709551614:1{at} v:0",
+            v(1), v(2), v(3)
+        ));
+    }
+    if !z {
+        // results beyond 255 (a narrowing cast of a length / capacity / index on its way
+        // back to the script): 260 equal elements, then the one that is looked for
+        let many = vec![v(1).to_string(); 260].join(",");
+        for at in ["", "@s"] {
+            texts.push(format!(
+                "f:0:{many} p:0:{}{at} l:0{at} k:0{at} e:0{at} i:0:{}{at} ?:0:{}{at} g:0:260{at} g:0:4{at} g:0:261{at} s:0:260:0{at} i:0:{}{at} g:0:0{at}",
+                v(2), v(2), v(2), v(2)
+            ));
+        }
+    }
+    if !z {
+        // element VALUES that matter to contains / index / == / get / to_vec / for:
+        // for strings 0 = "", 1 = "s1", 2 = "s" (a prefix of 1), 5 = "S1", 6 = "s1 ", 3 / 7 multi-byte
+        for at in ["", "@s"] {
+            texts.push(format!(
+                "f:0:0,1,2,5,6{at} ?:0:0{at} ?:0:2{at} ?:0:6{at} ?:0:3{at} ?:0:7{at} i:0:0{at} i:0:1{at} i:0:2{at} i:0:5{at} i:0:6{at} i:0:4{at} g:0:0{at} g:0:4{at} v:0{at} it:0{at}"
+            ));
+            texts.push(format!(
+                "f:0:0{at} n:1{at} =:0:1{at} =:1:0{at} f:1:0{at} =:0:1{at} f:0:1{at} f:1:5{at} =:0:1{at} f:1:6{at} =:0:1{at} =:1:0{at} f:1:2{at} =:0:1{at} f:0:2,1{at} f:1:1,2{at} =:0:1{at} f:0:3,7,0{at} f:1:3,7,0{at} =:0:1{at} ?:0:7{at} i:1:0{at}"
+            ));
+            texts.push(format!("n:0{at} p:0:0{at} p:0:0{at} l:0{at} e:0{at} ?:0:0{at} i:0:0{at} ?:0:1{at} +:1:0:0{at} v:1{at} s:1:0:3{at} g:1:3{at}"));
+        }
+    }
+    if etype == "String" && script::AVAILABLE {
+        // join: the empty list, singletons, empty strings leading / trailing / only /
+        // interleaved / repeated, elements equal to or containing the separator,
+        // multi-byte elements — each list built on the Rust side and by a script
+        // (literal + push), joined with every separator of SEPS (one byte, empty,
+        // two bytes, multi-byte, equal to an element, multi-byte + ASCII)
+        let lists: [&[u64]; 17] = [
+            &[], &[0], &[1], &[0, 1], &[1, 0], &[0, 0], &[0, 0, 0], &[1, 0, 2], &[0, 1, 0], &[1, 2],
+            &[4, 4], &[0, 0, 1], &[1, 0, 0], &[3, 7], &[2, 1, 6], &[0, 4, 0, 4], &[9, 0, 10, 0, 0, 11],
+        ];
+        for l in lists {
+            for at in ["", "@s"] {
+                let mut t = format!("f:0:{}{at}", nats(l));
+                for k in 0..SEPS.len() {
+                    t.push_str(&format!(" j:0:{k}@s"));
+                }
+                texts.push(t);
+            }
+        }
+        // join sees what the other handles did: push / swap / concat through an alias, then join
+        texts.push("f:0:1,2@s c:1:0 p:1:0 j:0:0@s s:1:0:2 j:0:2@s +:2:0:1@s j:2:0@s j:2:1@s n:1@s j:1:0@s +:1:1:0 j:1:3@s".into());
     }
     texts
         .iter()
@@ -1142,14 +1284,15 @@ fn space(tier: &str) -> &'static Space {
         let mut blocks = vec![];
         for &(ns, len) in &exhaustive {
             for et in ETYPES {
-                let alpha: Vec<Op> = alphabet(ns)
-                    .into_iter()
-                    .map(|o| if et == "Tk0" { zero_values(o) } else { o })
-                    .collect();
+                let alpha: Vec<Op> = if et == "String" {
+                    string_alphabet(ns)
+                } else {
+                    alphabet(ns).into_iter().map(|o| if et == "Tk0" { zero_values(o) } else { o }).collect()
+                };
                 let size = (alpha.len() as u64).pow(len as u32);
                 for &vm in &via_modes {
                     // script / alternating enumeration only for the shorter blocks
-                    if vm != 0 && size > if tier == "thorough" { 40_000_000 } else { 600_000 } {
+                    if vm != 0 && size > if tier == "thorough" { 44_000_000 } else { 600_000 } {
                         continue;
                     }
                     let uses = alpha
@@ -1185,6 +1328,10 @@ impl Block {
             if self.etype == "Tk0" && via_of(self.via_mode, i) == Via::Script && known_tk0_for(&self.alpha[d]) {
                 return None;
             }
+            // `join` exists on the script side only
+            if matches!(self.alpha[d], Op::Join(..)) && via_of(self.via_mode, i) != Via::Script {
+                return None;
+            }
             if let Some(h) = unbinds {
                 bound[*h] = false;
             }
@@ -1216,13 +1363,15 @@ fn via_of(mode: u64, i: usize) -> Via {
     }
 }
 
-/// KNOWN FINDING (known_findings.json, C15-zst-for-tokens): a script `for` over a
-/// list of zero-sized tracked elements drops one element more per iteration
-/// than it clones. It is reproduced by one boundary history; everywhere else
-/// the generators leave that one combination out so that the token count stays
-/// meaningful for the rest of the history.
-fn known_tk0_for(op: &Op) -> bool {
-    matches!(op, Op::ToVec(_) | Op::Iter(_))
+/// Formerly excluded (known finding C15-zst-for-tokens, repaired in the tree by
+/// `fix: a zero-sized registered type among the parameters …`: registered types
+/// are reference types whatever their size, so a script clone of a zero-sized
+/// value calls its clone function): a script `for` over a list of zero-sized
+/// tracked elements. Nothing is left out any more — the token balance of
+/// `for` / `get` over script-built and Rust-built `List[Tk0]` is checked like
+/// every other combination.
+fn known_tk0_for(_op: &Op) -> bool {
+    false
 }
 
 /// `None`: past the end; `Some(None)`: an index whose sequence is not expressible
@@ -1309,7 +1458,31 @@ fn class_of(case: &Case, recs: &[Rec], rep: &mut Report) {
             }
             Some(b'v') if r.out == "v" => "empty",
             Some(b'v') => "vals",
+            Some(b't') if r.out == "t" => "nostr",
+            Some(b't') => "str",
             _ => "-",
+        };
+        // join: which separator, and where the list has empty strings
+        let joined = match op {
+            Op::Join(h, k) => {
+                let xs: &[u64] = r.slots[*h].as_ref().map(|s| &s.2[..]).unwrap_or(&[]);
+                let e = |v: &u64| elem_string(*v).is_empty();
+                let shape = if xs.is_empty() {
+                    "nil"
+                } else if xs.iter().all(e) {
+                    "only-empty"
+                } else if e(&xs[0]) {
+                    "leading-empty"
+                } else if e(&xs[xs.len() - 1]) {
+                    "trailing-empty"
+                } else if xs.iter().any(e) {
+                    "inner-empty"
+                } else {
+                    "no-empty"
+                };
+                format!("/sep{k}/{shape}")
+            }
+            _ => String::new(),
         };
         let bound = r.slots.iter().filter(|s| s.is_some()).count();
         let lenb = match op.uses().0.first().and_then(|h| r.slots[*h].as_ref()) {
@@ -1323,7 +1496,10 @@ fn class_of(case: &Case, recs: &[Rec], rep: &mut Report) {
             None => "-",
         };
         let v = if *via == Via::Script { "s" } else { "r" };
-        rep.class(format!("{}/{}/{v}/{out}/len{lenb}/b{bound}/{}", case.etype, op.kind(), if grew { "grow" } else { "same" }));
+        rep.class(format!("{}/{}/{v}/{out}/len{lenb}/b{bound}/{}{joined}", case.etype, op.kind(), if grew { "grow" } else { "same" }));
+        if !joined.is_empty() {
+            rep.hist("join", &joined[1..]);
+        }
         rep.hist("op", op.kind());
         prev = Some(r);
     }
@@ -1418,6 +1594,29 @@ fn compare_with_model(pending: &mut Vec<(Case, Vec<Rec>, String)>, rep: &mut Rep
                 );
                 break;
             }
+        }
+    }
+}
+
+/// the strings the element values of a `List[String]` stand for are the same
+/// here (`elem_string`) and in the Lean model (`elemStr`), and distinct
+fn strings_tie(rep: &mut Report) {
+    let mut drv = Driver::spawn().expect("spawn rotov-driver");
+    let mut vals: Vec<u64> = (0..64).collect();
+    vals.extend([99, 100, 255, 256, 1000, 65535, 4294967296, u64::MAX]);
+    let mut seen = std::collections::HashMap::new();
+    for v in vals {
+        rep.evaluations += 1;
+        let here = show_str(&elem_string(v));
+        let there = drv.ask(&format!("c15 str {v}"));
+        if here != there {
+            rep.mismatch(&format!("element value {v} stands for {here} here and for {there} in the model"), json!({"value": v}));
+        }
+        if let Some(w) = seen.insert(here.clone(), v) {
+            rep.mismatch(&format!("element values {w} and {v} stand for the same string {here}"), json!({"value": v}));
+        }
+        if <RotoString as Elem>::make(v).val() != v {
+            rep.mismatch(&format!("element value {v} does not read back"), json!({"value": v}));
         }
     }
 }
@@ -1617,6 +1816,7 @@ fn main() {
                 }));
             }
             let mut rep = Report::default();
+            strings_tie(&mut rep);
             {
                 let (ended, out) = run_worker_keep_stdout(&["nested"], Duration::from_secs(120));
                 if let Some(v) = Report::parse_stdout(&out) {
